@@ -110,6 +110,7 @@ struct PkgEngine : Engine {
 		Json world = Json::object(); world["files"] = files; p["world"] = world;
 		// ---- documents
 		int ndocs = (int)w.range(1, 2);
+		bool labels_bias = false;
 		Json docs = Json::array();
 		for (int d = 0; d < ndocs; d++) {
 			DocOpts o; o.toc = w.chance(1, 3); o.html = w.chance(1, 2); o.emails = w.chance(1, 3); o.critic = false;
@@ -137,6 +138,14 @@ struct PkgEngine : Engine {
 					body += std::string(1 + w.below(6), '#') + " H" + std::to_string(h) + " " + ht[w.below(6)] + "\n\ntext " + std::to_string(h) + "\n\n";
 				}
 			}
+			if (o.image_urls.size() >= 2 && w.chance(1, 6)) {
+				// the shape in which the library's second srand() (one per heading label, and once more per heading when a {{TOC}} is built) sits between
+				// uuid draws: a cover image, a TOC, images inside and after headings - all with different URLs where the directory has them
+				auto U = [&](size_t i) { return o.image_urls[i % o.image_urls.size()]; };
+				size_t u0 = w.below(o.image_urls.size());
+				body = "![cover](" + U(u0) + ")\n\n{{TOC}}\n\n# One ![h1](" + U(u0 + 1) + ")\n\ntext ![x](" + U(u0 + 2) + ")\n\n## Two ![h2](" + U(u0 + 3) + ")\n\n![y](" + U(u0 + 4) + ")\n\n" + body;
+				labels_bias = true;
+			}
 			if (o.toc && w.chance(1, 2)) body = "{{TOC}}\n\n" + body;
 			if (!o.image_urls.empty() && w.chance(1, 4)) body = "![cover](" + o.image_urls[w.below(o.image_urls.size())] + ")\n\n" + body;      // a cover image before the first heading
 			// raw filters and header-level metadata legitimately differ between EPUB and HTML
@@ -158,7 +167,8 @@ struct PkgEngine : Engine {
 			o["fmt"] = pf[w.below(5)];
 			o["doc"] = (int64_t)w.below((uint64_t)ndocs);
 			unsigned long ext = gen_ext(w, true) & ~(X_SNIPPET | X_COMPATIBILITY | X_NO_METADATA | X_CRITIC_ACCEPT | X_CRITIC_REJECT);
-			if (w.chance(1, 3)) ext |= X_RANDOM_FOOT;
+			if (labels_bias && w.chance(1, 2)) ext = (ext & ~X_RANDOM_FOOT) | X_RANDOM_LABELS;      // random labels WITHOUT random footnotes: only the label-side srand runs
+			else if (w.chance(1, 3)) ext |= X_RANDOM_FOOT;
 			else if (w.chance(1, 3)) ext |= X_RANDOM_LABELS;      // the other library-side srand (one per heading label)
 			o["ext"] = (int64_t)ext;
 			o["lang"] = (int64_t)w.below(7);
